@@ -143,6 +143,9 @@ def run_input(data: bytes, cuts: List[int], refuse: bool, schedule: List[int], p
 def check_input(c: Dict[str, Any]) -> Tuple[List[Any], Dict[str, Any]]:
     if c['what'] == 'random':
         data = c['data']
+    elif c['what'] == 'sequence':
+        # several complete requests on one connection (keep-alive / pipelined): routed, unrouted, static, upgrade proposals
+        data = b''.join(G.render(q_) for q_ in c['reqs'])
     else:
         data = mutate(G.render(c['req']), c['muts'])
     pp = c.get('pp')
@@ -355,6 +358,16 @@ def input_cases(draw: Any, what: str) -> Dict[str, Any]:
                          'schedule': draw(st.lists(st.integers(0, 2), max_size=12))}
     if draw(st.integers(0, 5)) == 0:
         c['pp'] = draw(st.integers(0, len(PP_LINES) - 1))
+    if what == 'sequence':
+        c.pop('pp', None)
+        c['refuse'] = False
+        c['reqs'] = []
+        for _ in range(draw(st.integers(2, 4))):
+            q_ = draw(G.request_spec(form='origin', framings=('none', 'cl'), max_body=40, max_headers=3, versions=(b'HTTP/1.1',)))
+            q_['target'] = draw(st.sampled_from([b'/gen/10/1/1', b'/gen/300/2/3', b'/gen/0/0/1', b'/nothing-here', b'/', b'/gen', b'/vfws', b'/%zz',
+                                                 b'/gen/10/1/1?x=1', b'/nothing?x=/gen/']))
+            c['reqs'].append(q_)
+        return c
     if what == 'random':
         c['data'] = draw(st.one_of(st.binary(max_size=120),
                                    st.lists(st.sampled_from([b'GET', b'CONNECT', b' ', b'/', b'http://', b'h', b':', b'80', b'HTTP/1.1', b'\r\n',
@@ -425,7 +438,7 @@ def builder_cases(draw: Any) -> Dict[str, Any]:
 def shards(tier: str) -> List[Dict[str, Any]]:
     q = tier == 'quick'
     out = []
-    for what, k_ in (('random', 3), ('valid', 2), ('mutated', 8), ('conflict', 2)):
+    for what, k_ in (('random', 3), ('valid', 2), ('mutated', 8), ('conflict', 2), ('sequence', 2)):
         for i in range(k_):
             out.append({'name': '%s-%d' % (what, i), 'kind': 'input', 'what': what, 'examples': 600 if q else 12000})
     for i in range(3):
